@@ -31,11 +31,21 @@ impl Dest {
     pub fn write_i32<E>(&mut self, v: i32) -> (r: Result<(), IoError>)
         ensures r is Ok ==> final(self)@ == old(self)@ + be32(v as u32),
     { unimplemented!() }
+    /// std::io::Write::write_all: appends all the bytes, or fails
+    #[verifier::external_body]
+    pub fn write_all(&mut self, buf: &[u8]) -> (r: Result<(), IoError>)
+        ensures r is Ok ==> final(self)@ == old(self)@ + buf@,
+    { unimplemented!() }
     #[verifier::external_body]
     pub fn write_u64<E>(&mut self, v: u64) -> (r: Result<(), IoError>)
         ensures r is Ok ==> final(self)@ == old(self)@ + be64(v),
     { unimplemented!() }
 }
+/// models of iN::to_be_bytes (std; their signatures cannot be named in an assume_specification): big-endian bytes
+#[verifier::external_body]
+pub fn vp_i32_to_be(v: &i32) -> (r: [u8; 4]) ensures r@ == be32(*v as u32) { v.to_be_bytes() }
+#[verifier::external_body]
+pub fn vp_i16_to_be(v: &i16) -> (r: [u8; 2]) ensures r@ == be16(*v as u16) { v.to_be_bytes() }
 /// strings: only their UTF-8 byte content matters
 pub open spec fn string_bytes(s: &String) -> Seq<u8> { encode_utf8(s@) }
 pub assume_specification [std::string::String::as_bytes] (s: &std::string::String) -> (r: &[u8]) ensures r@ == string_bytes(s);
